@@ -27,7 +27,11 @@ Record post : Type := mkPost {
   pxact  : Z;       (* identity of post->xact *)
   pdate  : Z;       (* post_t::date(), days since 1970-01-01 *)
   pvdate : Z;       (* post_t::value_date() *)
-  ppayee : payee;
+  ppayee : payee;   (* post_t::payee(): the posting's own payee (a `; Payee: NAME` tag on the
+                       posting, else the same tag on its transaction) if there is one, else
+                       the payee of its transaction.  This is what %(payee), payee queries,
+                       --sort payee and by_payee_posts use; the harness feeds it per posting *)
+  pxpayee : payee;  (* post->xact->payee: what collapse_posts copies to its temporary xact *)
   pacct  : str;     (* reported_account()->fullname() *)
   pvirt  : bool;    (* POST_VIRTUAL *)
   pstate : Z;       (* 0 uncleared, 1 cleared, 2 pending *)
@@ -54,7 +58,8 @@ Fixpoint str_contains (needle hay : str) : bool :=
 Record filt : Type := mkFilt {
   f_real  : bool;          (* --real: "real" *)
   f_state : Z;             (* 0 none; 1 --cleared; 2 --pending; 3 --uncleared *)
-  f_query : option str     (* account pattern *)
+  f_query : option str;    (* account pattern *)
+  f_payee : option str     (* payee pattern (@NAME): matched against post_t::payee() *)
 }.
 
 Definition keep_post (f : filt) (p : post) : bool :=
@@ -67,6 +72,10 @@ Definition keep_post (f : filt) (p : post) : bool :=
    end) &&
   (match f_query f with
    | Some q => str_contains q (pacct p)
+   | None => true
+   end) &&
+  (match f_payee f with
+   | Some q => match ppayee p with PName s => str_contains q s | _ => false end
    | None => true
    end).
 
@@ -149,7 +158,7 @@ Fixpoint sub_feed (m : values_map) (l : list post) : res values_map :=
 
 (* report_subtotal: one generated posting per entry, in key order *)
 Definition sub_report (py : payee) (xid : Z) (comps : list post) (m : values_map) : list post :=
-  map (fun e => mkPost xid (range_start comps) (range_finish comps) py (fst e)
+  map (fun e => mkPost xid (range_start comps) (range_finish comps) py py (fst e)
                        false 0 (fst (snd e))) m.
 
 Definition subtotal_group (py : list post -> payee) (xid : Z) (comps : list post) : res (list post) :=
@@ -163,8 +172,9 @@ Definition subtotal (l : list post) : res (list post) :=
 
 (* ------------------------------------------- by_payee_posts and day_of_week_posts *)
 
-(* payee_subtotals: std::map<string, subtotal_posts>; each entry is represented by the
-   postings it has been fed, in order *)
+(* payee_subtotals: std::map<string, subtotal_posts> keyed by post.payee() (NOT by the
+   transaction's payee: a posting that names its own payee is summed under that name);
+   each entry is represented by the postings it has been fed, in order *)
 Fixpoint bucket_insert (k : str) (p : post) (m : list (str * list post)) : list (str * list post) :=
   match m with
   | [] => [(k, [p])]
@@ -251,8 +261,9 @@ Fixpoint totals_feed (depth : Z) (m : list (str * value)) (l : list post) : res 
   | p :: l' => do m' <- totals_add (totals_key depth p) (pamt p) m; totals_feed depth m' l'
   end.
 
+(* xact.payee = last_xact->payee: the transaction's payee, not the posting's *)
 Definition last_payee (l : list post) : payee :=
-  match rev l with p :: _ => ppayee p | [] => PName [] end.
+  match rev l with p :: _ => pxpayee p | [] => PName [] end.
 
 (* report_subtotal for the component posts of one transaction (display and only
    predicates are absent: displayed_count = count) *)
@@ -261,10 +272,10 @@ Definition collapse_group (depth : Z) (g : Z) (comps : list post) : res (list po
   | [p] => if depth =? 0 then Ok [p]                       (* the posting itself *)
            else do m <- totals_feed depth [] comps;
                 Ok (map (fun e => mkPost (xid_collapse g) (range_start comps) (range_finish comps)
-                                         (last_payee comps) (fst e) false 0 (snd e)) m)
+                                         (last_payee comps) (last_payee comps) (fst e) false 0 (snd e)) m)
   | _ => do m <- totals_feed depth [] comps;
          Ok (map (fun e => mkPost (xid_collapse g) (range_start comps) (range_finish comps)
-                                  (last_payee comps) (fst e) false 0 (snd e)) m)
+                                  (last_payee comps) (last_payee comps) (fst e) false 0 (snd e)) m)
   end.
 
 Fixpoint collapse_runs (depth : Z) (g : Z) (rs : list (list post)) : res (list post) :=
